@@ -101,15 +101,15 @@ const (
 
 // tableKeys is the API key configuration of the table worlds. Key strings come from the seed.
 type tableKeys struct {
-	Perm   map[string]string // "user/admin" -> key
-	NoPerm string
-	Short  string // a configured key shorter than four bytes (valid!)
-	Future string
-	Past   string
-	Soon   string
-	SoonAt time.Time
+	Perm    map[string]string // "user/admin" -> key
+	NoPerm  string
+	Short   string // a configured key shorter than four bytes (valid!)
+	Future  string
+	Past    string
+	Soon    string
+	SoonAt  time.Time
 	Unknown string
-	List   []cfgKey
+	List    []cfgKey
 }
 
 func randKey(r *vlib.Rand, n int) string {
